@@ -65,6 +65,8 @@ PAIR_RULES = {
     "notalisting": "pattern:\n- call\n",
     # one finding of more than 150 instructions (a reported text of several thousand characters)
     "long": "pattern:\n- push\n- $not:\n  - ret\n  times:\n    min: 0\n    max: 400\n- ret\n",
+    # more than a thousand findings in one run: one output line per element of the API's list, however many there are
+    "crowd": "pattern:\n- nop\n",
     "range": "config:\n  valid_addr_range:\n    min: '0x0'\n    max: '0x100'\npattern:\n- call:\n  - valid_addr\n",
 }
 MACROS = {"m1": "macros:\n- name: '@x'\n  pattern: push\n- name: '@y'\n  pattern: call\n",
@@ -105,6 +107,11 @@ def run(prop, tier):
     with open(long_text, "w") as f:
         f.write(objdump.objdump_text(long_obj))
     inputs["long"] = (long_text, long_obj)
+    crowd_obj = objdump.assemble("\t.text\nf:\n" + "\tnop\n" * 1500 + "\tret\n", "c20crowd")
+    crowd_text = os.path.join(d, "crowd.s")
+    with open(crowd_text, "w") as f:
+        f.write(objdump.objdump_text(crowd_obj))
+    inputs["crowd"] = (crowd_text, crowd_obj)
     inputs["wrongkind"] = (obj, text)
     junk = os.path.join(d, "notes.txt")
     with open(junk, "w") as f:
